@@ -31,17 +31,20 @@ struct Side
 };
 
 // plan: 0-2 copy, 3 equivalence edit, 4-5 mutation anywhere in the model, 6.. mutation inside what the top entity covers
-void derive(Side &d, const Side &base, unsigned plan, Src &src)
+void derive(Side &d, const Side &base, unsigned plan, Src &src, bool localRef)
 {
     d.spec = base.spec;
     d.loc = base.loc;
-    if (plan <= 2) {
+    if (plan <= 2 && !localRef) {
         return;
     }
     Where w = plan == 3 ? EQUIVALENCES : (plan <= 5 ? ANYWHERE : INSIDE);
+    if (localRef) {
+        w = LOCAL_IMPORT_REFERENCE;
+    }
     bool found = false;
     Mut m = chooseMutation(d.spec, d.loc, src, w, &found);
-    if (!found && w != ANYWHERE) {
+    if (!found && w != ANYWHERE && !localRef) {
         m = chooseMutation(d.spec, d.loc, src, ANYWHERE, &found);
     }
     if (!found) {
@@ -55,9 +58,10 @@ void derive(Side &d, const Side &base, unsigned plan, Src &src)
     d.covered = m.covered;
 }
 
-void realise(Side &s, Src &src, bool permute)
+void realise(Side &s, Src &src, bool permute, bool viaSource)
 {
     s.built = buildApi(s.spec, &src);
+    applyLocalImportReferences(s.spec, s.built, viaSource);
     if (permute) {
         s.permChanged = permuteChildren(s.built, s.spec, s.loc, src, &s.permInside);
     }
@@ -215,6 +219,22 @@ void run(Src &mainSrc, Case &c)
             c.cls("shape:" + l);
         }
     }
+    // import references on entities that are not imports (decisions taken from the tail of the pre-drawn block, see PreSrc::tail)
+    const unsigned nLocalRefs = static_cast<unsigned>(late.tail(0, 8)) >= 6 ? static_cast<unsigned>(late.tail(0, 8)) - 5 : 0;
+    std::string localRefs;
+    for (unsigned i = 0; i < nLocalRefs; ++i) {
+        std::string l = addLocalImportReference(A.spec, late.tail(1 + i, 1u << 20), i == 0 ? "lref" : "lref_2");
+        if (!l.empty()) {
+            localRefs += (localRefs.empty() ? "" : ", ") + l;
+        }
+    }
+    if (!localRefs.empty()) {
+        c.cls("local-import-reference");
+    }
+    const unsigned localRefOdds = localRefs.empty() ? 1 : 4; // of 16
+    const bool localB = late.tail(3, 16) >= 16 - localRefOdds;
+    const bool localC = late.tail(4, 16) >= 16 - localRefOdds;
+    const bool viaSourceA = late.tail(5, 2) == 1, viaSourceB = late.tail(6, 2) == 1, viaSourceC = late.tail(7, 2) == 1;
     A.loc = chooseLoc(A.spec, late, {wantKind});
     if (A.loc.kind != wantKind) {
         A.loc = chooseLoc(A.spec, late, allKinds); // the wanted kind does not exist in this model
@@ -222,16 +242,16 @@ void run(Src &mainSrc, Case &c)
     const std::string type = kindName(A.loc.kind);
 
     Side B, C;
-    derive(B, A, planB, late);
-    derive(C, cFromB ? B : A, planC, late);
+    derive(B, A, planB, late, localB);
+    derive(C, cFromB ? B : A, planC, late, localC);
     if (cFromB && B.mutated) {
         C.label = C.mutated ? B.label + "+" + C.label : B.label;
     }
-    realise(A, late, false);
-    realise(B, late, true);
-    realise(C, late, true);
+    realise(A, late, false, viaSourceA);
+    realise(B, late, true, viaSourceB);
+    realise(C, late, true, viaSourceC);
 
-    c.text = "top entity: " + locText(A.spec, A.loc) + "\nshape transformations: " + (shapes.empty() ? "none" : shapes) + "\nb = a with: " + B.what + " [" + std::to_string(B.permInside) + " containers inside the entity permuted]"
+    c.text = "top entity: " + locText(A.spec, A.loc) + "\nshape transformations: " + (shapes.empty() ? "none" : shapes) + (localRefs.empty() ? "" : "\nimport reference without import source on: " + localRefs) + "\nb = a with: " + B.what + " [" + std::to_string(B.permInside) + " containers inside the entity permuted]"
              + "\nc = " + (cFromB ? "b" : "a") + " with: " + C.what + " [" + std::to_string(C.permInside) + " containers inside the entity permuted]" + (probeKnown ? "\n(listed findings are asserted in this case)" : "") + "\n--- a ---\n" + specToText(A.spec);
     c.hash = hashStr(c.text);
     c.weight = c.text.size();
@@ -352,7 +372,7 @@ namespace vp {
 Property property = {
     "C10",
     "exploration",
-    "rapidcheck tapes: a generated model (valid by construction, then 0-2 validity-breaking shape transformations: duplicated siblings of every kind, resets without order/variable/value, tiny unit multipliers) "
+    "rapidcheck tapes: a generated model (valid by construction, then 0-2 validity-breaking shape transformations: duplicated siblings of every kind, resets without order/variable/value, tiny unit multipliers; import references on entities that are not imports) "
     "is built through the API; one entity a of a tape-chosen type (model, component, variable, units, reset, import source) is compared with the corresponding entity of b and c, where b = a and c = a or b, each rebuilt "
     "from a copy of the spec with either nothing changed, or exactly one mutation of the catalogue (every attribute / child kind named in the statement, at a tape-chosen site inside the entity; sometimes outside it or an "
     "equivalence edit, which must not matter) and with the children of every container permuted through the API. Every unordered pair is judged in both directions against a reference model of equality computed from the spec alone; "
@@ -360,7 +380,7 @@ Property property = {
     "Non-trivial: a mutation at containment depth >= 1 below the compared entity, or a permuted container inside it, or a pair that differs only in child multiplicity. Distinct = hash of the case text.",
     run,
     nullptr,
-    {"unit exponents / multipliers are changed by >= 1e-6 relative (never within 1 ulp)", "math is changed by a token, never by whitespace only", "interface '' vs 'none' and prefix spellings are treated as different attribute texts (as equals() does)",
+    {"unit exponents / multipliers are changed by >= 1e-6 relative (never within 1 ulp)", "an import reference on a component / units without import source (set directly, or left behind by setImportSource(nullptr)) is an attribute like any other", "math is changed by a token, never by whitespace only", "interface '' vs 'none' and prefix spellings are treated as different attribute texts (as equals() does)",
      "pairs whose only difference is a surplus of variables/resets/units on one side, or child components that agree as sets but not as multisets, are asserted in ~4% of the cases only (listed findings) and counted as excluded otherwise"},
 };
 }
